@@ -254,7 +254,16 @@ def drive(recipe):
         try:
             if kind == "Eval":
                 rec["set"] = ev[1]
-                rec["f"]["obs"] = np.asarray(dens(set(ev[1])).rho(points(pose)), dtype=np.float64)
+                P = points(pose)
+                if recipe.get("embed"):
+                    # the same points evaluated as the tail of one large call (cyclic copies as filler): a value must depend
+                    # only on its point and the atoms, not on the size of the batch it is evaluated in
+                    nb = int(recipe["embed"])
+                    bigp = np.tile(P, (-(-nb // len(P)), 1))[:nb].copy()
+                    bigp[-len(P):] = P
+                    rec["f"]["obs"] = np.asarray(dens(set(ev[1])).rho(bigp), dtype=np.float64)[-len(P):]
+                else:
+                    rec["f"]["obs"] = np.asarray(dens(set(ev[1])).rho(P), dtype=np.float64)
                 calls.append("PromoleculeDensity((Z%s, pos)).rho(pts)" % (ev[1] if len(ev[1]) < 5 else "[%d atoms]" % len(ev[1])))
             elif kind == "Permute":
                 rec["perm"] = ev[1]
@@ -395,6 +404,12 @@ def _recipes(ctx):
     sizes = [1, 2, 3, 4, 5, 6, 8, 12, 20, 30, 40]
     for i in range(ctx.pick(100, 3000)):
         recipes.append(molecule_recipe(rng, sizes[i % len(sizes)] if i < 22 else rng.choice(sizes)))
+    # some programs evaluate their points inside one large call (35k-70k points)
+    nemb = 0
+    for r in recipes:
+        if r["kind"] == "molecule" and nemb < ctx.pick(8, 80) and len(r["z"]) <= 12:
+            r["embed"] = rng.choice([32769, 40000, 70001])
+            nemb += 1
     return els, recipes
 
 
@@ -411,7 +426,7 @@ def run(ctx, explain=False):
     ctx.exhaustive = False
     ctx.rule = ("%d element sweeps (one atom, 30 points from 0.35 A to beyond the table end, 3 poses) for Z in %s; "
                 "%d seeded molecules of 1-40 atoms (Z uniform in 1..103), 8-20 points >= 0.35 A from every nucleus, "
-                "programs of Eval / Permute / Move / Split / Complement events; non-trivial = more than one atom, "
+                "programs of Eval / Permute / Move / Split / Complement events (some evaluating their points as the tail of one 33k-70k point call); non-trivial = more than one atom, "
                 "or a full distance sweep" % (len([r for r in recipes if r["kind"] == "sweep"]),
                                               "1..103" if not ctx.quick else str(els),
                                               len([r for r in recipes if r["kind"] == "molecule"])))
